@@ -61,7 +61,81 @@ func (s *sink) SetTimeOffset(ntp uint64, rtp uint32) {}
 func (s *sink) SetCname(string)                       {}
 func (s *sink) GetMaxBitrate() (uint64, int, int)     { return ^uint64(0), 0, 0 }
 
+// gateSink blocks in Write while its gate is closed: a receiver whose
+// transport stalls, so that the writer loop lags behind the receive loop.
+type gateSink struct {
+	sink
+	gate chan struct{}
+}
+
+func (g *gateSink) Write(buf []byte) (int, error) {
+	<-g.gate
+	return g.sink.Write(buf)
+}
+
+// lagging: the writer loop is stalled while the receive loop stores more
+// packets and the cache is resized (updateUpTrack does that when the bitrate
+// changes), so that the queued (seqno, index) requests go stale; then the
+// writer is released.  Whatever it delivers must still be a stored packet.
+func lagging(t *tr.Trace, r *tr.Rand, k int) {
+	capacity := []int{16, 24, 32}[k%3]
+	t.History("writerrace", "resize-while-lagging", capacity)
+	w := rtpconn.NewVerifWriter(capacity)
+	g := &gateSink{gate: make(chan struct{})}
+	start := uint16(65536 - r.Range(1, 30))
+	stored := map[uint16][]byte{}
+	put := func(i int) {
+		seq := start + uint16(i)
+		p := mkPacket(seq, i == 0)
+		stored[seq] = p
+		_, index := w.Store(seq, uint32(i)*3000, i == 0, false, p)
+		w.Write(seq, index, 0, true, false)
+	}
+	put(0)
+	if err := w.Add(g); err != nil {
+		panic(err)
+	}
+	time.Sleep(2 * time.Millisecond) // sendSequence replays packet 0 and blocks in the gate
+	more := capacity + r.Range(2, 8)
+	for i := 1; i <= more; i++ {
+		put(i)
+	}
+	w.Resize(capacity * 2)
+	for i := more + 1; i <= more+r.Range(1, 5); i++ {
+		put(i)
+	}
+	close(g.gate)
+	time.Sleep(5 * time.Millisecond)
+	w.Close()
+	time.Sleep(2 * time.Millisecond)
+	bad := 0
+	g.mu.Lock()
+	for _, p := range g.got {
+		t.Checked("C05.delivered_is_stored")
+		seq := uint16(0)
+		if len(p) >= 4 {
+			seq = uint16(p[2])<<8 | uint16(p[3])
+		}
+		want, ok := stored[seq]
+		if !ok || !bytes.Equal(want, p) {
+			bad++
+			if bad <= 2 {
+				t.Fail("C05", "delivered_is_stored", fmt.Sprintf("after the cache was resized while the writer lagged, the receiver was handed %d bytes numbered %d that are not the packet stored under that number (%d bytes): truncated, padded or another packet", len(p), seq, len(want)))
+			}
+		}
+	}
+	n := len(g.got)
+	g.mu.Unlock()
+	t.Op(fmt.Sprint(bad), "deliveries", 1)
+	if n > 0 {
+		t.Nontrivial(fmt.Sprintf("writerrace/lagging/%d/%d", capacity, start))
+	}
+}
+
 func runWriterRace(t *tr.Trace, r *tr.Rand, n int) {
+	for k := 0; k < 6; k++ {
+		lagging(t, r, k)
+	}
 	for hi := 0; hi < n; hi++ {
 		capacity := []int{64, 128, 256}[r.Intn(3)]
 		t.History("writerrace", fmt.Sprintf("cap%d", capacity), capacity)
